@@ -100,5 +100,33 @@ mk benign comment-and-blank-lines ALL tx.go 's/^(\tlastIndex := writesLen - 1)$/
 mk benign switch-instead-of-ifs ALL db.go '/func \(db \*DB\) buildOtherIdxes/,/^}/c func (db *DB) buildOtherIdxes(bucket string, r *Record) error {\n\tswitch r.H.meta.ds {\n\tcase DataStructureSet:\n\t\treturn db.buildSetIdx(bucket, r)\n\tcase DataStructureSortedSet:\n\t\treturn db.buildSortedSetIdx(bucket, r)\n\tcase DataStructureList:\n\t\treturn db.buildListIdx(bucket, r)\n\t}\n\treturn nil\n}' "switch instead of if chain"
 mk benign extra-helper-for-path ALL db.go 's/^(func \(db \*DB\) getMetaPath\(\) string \{)$/func (db *DB) dirJoin(parts ...string) string {\n\treturn db.opt.Dir + "\/" + strings.Join(parts, "\/")\n}\n\n\1/' "an unused helper"
 mk benign isexpired-reordered ALL record.go 's/if ttl > 0 \&\& uint64\(ttl\)\+timestamp > uint64\(now\) \|\| ttl == Persistent \{/if ttl == Persistent || (ttl > 0 \&\& uint64(now) < timestamp+uint64(ttl)) {/' "equivalent expiry expression"
+# ---- phase 3: benign variants for the rules added from seeded changes ----
+mkp benign leafchain-temp-var ALL bptree.go 's/\tif leaf.pointers\[order-1\] != nil \{\n\t\tnewLeaf.pointers\[order-1\] = leaf.pointers\[order-1\]\n\t\}/\tnext := leaf.pointers[order-1]\n\tif next != nil {\n\t\tnewLeaf.pointers[order-1] = next\n\t}/' "successor kept in a local before the splice"
+mkp benign logged-err-variable ALL tx_list.go 's/\treturn item, tx.push\(bucket, key, DataLPopFlag, item\)/\terr = tx.push(bucket, key, DataLPopFlag, item)\n\treturn item, err/' "log result through a variable"
+mk benign sizepair-long-form ALL tx.go 's/^\t\ttx.db.ActiveFile.writeOff \+= entrySize$/\t\ttx.db.ActiveFile.writeOff = tx.db.ActiveFile.writeOff + entrySize/' "x = x + d instead of x += d"
+mkp benign backup-helper-inside-view ALL db.go 's/\terr := db.View\(func\(tx \*Tx\) error \{\n\t\treturn filesystem.CopyDir\(db.opt.Dir, dir\)\n\t\}\)/\terr := db.View(func(tx *Tx) error {\n\t\treturn db.copyAll(dir)\n\t})/; s/\n\/\/ Close releases all db resources./\nfunc (db *DB) copyAll(dir string) error {\n\treturn filesystem.CopyDir(db.opt.Dir, dir)\n}\n\n\/\/ Close releases all db resources./' "copy moved into a helper that runs inside View"
+mkp benign rwbounds-offset-helper ALL rwmanger_mmap.go 's/\} else if off >= int64\(len\(mm.m\)\) \|\| off < 0 \{\n\t\treturn 0, ErrIndexOutOfBound\n\t\}\n\n\treturn copy\(b, mm.m\[off:\]\), nil/} else if !mm.validStart(off) {\n\t\treturn 0, ErrIndexOutOfBound\n\t}\n\n\treturn copy(b, mm.m[off:]), nil/; s/\n\/\/ Sync synchronizes/\nfunc (mm *MMapRWManager) validStart(off int64) bool {\n\treturn off >= 0 \&\& off < int64(len(mm.m))\n}\n\n\/\/ Sync synchronizes/' "start-offset test in a helper"
+mkp benign zscore-strict-inplace ALL ds/zset/sortedset.go 's/\t\tif n.score == score \{\n\t\t\tn.Value = value\n\t\t\} else \{/\t\tif n.score == score {\n\t\t\tn.Value = value\n\t\t} else if (n.backward == nil || n.backward.score < score) \&\&\n\t\t\t(n.level[0].forward == nil || n.level[0].forward.score > score) {\n\t\t\tn.score = score\n\t\t\tn.Value = value\n\t\t} else {/' "in-place score update behind strict neighbour comparisons"
+mkp benign replay-helper-same-split ALL db.go 's/\t\tkeyAndIndex := strings.Split\(string\(r.E.Key\), SeparatorForListKey\)\n\t\tnewKey := keyAndIndex\[0\]\n\t\tindex, _ := strconv2.StrToInt\(keyAndIndex\[1\]\)/\t\tnewKey, idxStr := splitKeyIdx(string(r.E.Key))\n\t\tindex, _ := strconv2.StrToInt(idxStr)/; s/\n\/\/ ErrWhenBuildListIdx returns/\nfunc splitKeyIdx(s string) (string, string) {\n\tparts := strings.Split(s, SeparatorForListKey)\n\treturn parts[0], parts[1]\n}\n\n\/\/ ErrWhenBuildListIdx returns/' "open-side parse moved into a helper with the same split"
+mk benign entry-present-reordered ALL db.go 's/if db.opt.EntryIdxMode == HintKeyValAndRAMIdxMode \|\| entry.Meta.ds != DataStructureBPTree \{/if entry.Meta.ds != DataStructureBPTree || db.opt.EntryIdxMode == HintKeyValAndRAMIdxMode {/' "disjuncts swapped"
+mkp benign recover-order-renamed ALL db.go 's/unconfirmedRecords/scanned/g' "rename a local in recovery"
+mkp benign merge-remove-after-close ALL db.go 's/(\t\tif err := os.Remove\(db.getDataPath\(int64\(pendingMergeFId\)\)\); err != nil \{\n\t\t\tdb.isMerging = false\n\t\t\tf.rwManager.Close\(\)\n\t\t\treturn fmt.Errorf\("when merge err: %s", err\)\n\t\t\}\n\n)\t\tf.rwManager.Close\(\)\n/\t\tf.rwManager.Close()\n\n$1/; s/(\t\tf.rwManager.Close\(\)\n\n\t\tif err := os.Remove\(db.getDataPath\(int64\(pendingMergeFId\)\)\); err != nil \{\n\t\t\tdb.isMerging = false\n)\t\t\tf.rwManager.Close\(\)\n/$1/' "merge closes the scanned segment before removing it"
+# ---- phase 3: the seeded changes kept under /verif/seeded are mutants too (rules from their meta.json) ----
+for d in ../seeded/*/; do
+  sid=$(basename "$d")
+  rules=$(python3 -c "import json,sys; m=json.load(open('$d/meta.json')); r=m.get('detected_now',{}); print(','.join(r.get('rules',[])) if r.get('by_target_property') else '')" 2>/dev/null)
+  [ -n "$rules" ] || continue
+  W=$(mktemp -d /tmp/nutsmut.XXXXXX); cp -r "$BASE"/. "$W"/
+  if (cd "$W" && patch -p1 -s < "$OLDPWD/$d/patch.diff" >/dev/null 2>&1) && (cd "$W" && go build ./... 2>/dev/null); then
+    (cd "$W" && rm -f *.orig */*/*.orig; diff -ruN "$BASE" . | sed "s#$BASE/#a/#g; s#^+++ \./#+++ b/#; s#^diff -ruN $BASE/\(.*\) \./\(.*\)#diff -ruN a/\1 b/\2#") > "mutants/seed-$sid.diff"
+    echo "," >> corpus.json
+    desc=$(python3 -c "import json; print(json.load(open('$d/meta.json'))['summary'].split('.')[0][:150].replace('\"','').replace('\\\\',''))")
+    printf '{"kind":"mutants","name":"seed-%s","rules":"%s","file":"(several)","desc":"%s"}' "$sid" "$rules" "$desc" >> corpus.json
+    echo "ok mutants/seed-$sid"
+  else
+    echo "SKIP seed-$sid (does not apply/build on HEAD)"
+  fi
+  rm -rf "$W"
+done
 echo "]" >> corpus.json
 rm -rf "$BASE"
